@@ -119,6 +119,20 @@ def gen_destructure():
         cases.append(Case("G3-count", "array n=%d one too few" % n, "fn f(v: [String; %d]) { konst::destructure!{[%s] = v} }\n" % (n, ", ".join(xs[:-1])), good))
         cases.append(Case("G3-count", "array n=%d one too many" % n, "fn f(v: [String; %d]) { konst::destructure!{[%s, y] = v} }\n" % (n, ", ".join(xs)), good))
         cases.append(Case("G3-count", "array n=%d too many with rest" % n, "fn f(v: [String; %d]) { konst::destructure!{[%s, y, ..] = v} }\n" % (n, ", ".join(xs)), good))
+    # the macro numbers at most 16 fields: patterns beyond the 16th must still be counted / `..` still be seen
+    xs16 = ["x%d" % i for i in range(16)]
+    t16 = "(%s)" % ", ".join(["u8"] * 16)
+    good16 = "fn f(v: %s) { konst::destructure!{(%s) = v} }\n" % (t16, ", ".join(xs16))
+    cases.append(Case("G3-count", "tuple n=16 with 17 patterns", "fn f(v: %s) { konst::destructure!{(%s, y) = v} }\n" % (t16, ", ".join(xs16)), good16))
+    cases.append(Case("G3-count", "tuple n=16 with 18 patterns", "fn f(v: %s) { konst::destructure!{(%s, y, z) = v} }\n" % (t16, ", ".join(xs16)), good16))
+    cases.append(Case("G3-count", "tuple n=16 with 17 patterns, annotated", "fn f(v: %s) { konst::destructure!{(%s, _): %s = v} }\n" % (t16, ", ".join(xs16), t16), good16))
+    cases.append(Case("G4-rest", "tuple n=16 with a trailing ..", "fn f(v: %s) { konst::destructure!{(%s, ..) = v} }\n" % (t16, ", ".join(xs16)), good16))
+    cases.append(Case("G4-rest", "tuple n=16 with a trailing .., annotated", "fn f(v: %s) { konst::destructure!{(%s, ..): %s = v} }\n" % (t16, ", ".join(xs16), t16), good16))
+    decl16 = "struct S16(%s);\n" % ", ".join(["u8"] * 16)
+    goods16 = decl16 + "fn f(v: S16) { konst::destructure!{S16(%s) = v} }\n" % ", ".join(xs16)
+    cases.append(Case("G3-count", "tuple struct n=16 with 17 patterns", decl16 + "fn f(v: S16) { konst::destructure!{S16(%s, y) = v} }\n" % ", ".join(xs16), goods16))
+    cases.append(Case("G4-rest", "tuple struct n=16 with a trailing ..", decl16 + "fn f(v: S16) { konst::destructure!{S16(%s, ..) = v} }\n" % ", ".join(xs16), goods16))
+    cases.append(Case("G4-rest", "tuple struct n=16 with a trailing .., annotated", decl16 + "fn f(v: S16) { konst::destructure!{S16(%s, ..): S16 = v} }\n" % ", ".join(xs16), goods16))
     # 1-tuple against a longer tuple and vice versa
     cases.append(Case("G3-count", "1-tuple pattern on a pair", "fn f(v: (String, String)) { konst::destructure!{(a,) = v} }\n", "fn f(v: (String,)) { konst::destructure!{(a,) = v} }\n"))
     cases.append(Case("G3-count", "pair pattern on a 1-tuple", "fn f(v: (String,)) { konst::destructure!{(a, b) = v} }\n", "fn f(v: (String, String)) { konst::destructure!{(a, b) = v} }\n"))
